@@ -25,11 +25,17 @@ git apply -R patch.diff
 go test -count=1 -run 'TestSeededDemo' $PKG > /tmp/mut_without.txt 2>&1; WITHOUT=$?
 git apply patch.diff
 echo "demo with change: exit $WITH (want !=0); without: exit $WITHOUT (want 0); existing suite with change: exit $SUITE (want 0)"
-# my check
-git -C /repo apply $WT/patch.diff || { echo "patch does not apply to /repo"; exit 4; }
-cd /verif && timeout 3000 ./bin/symgo check -p $P -tier quick "$@" > /tmp/mut_check.txt 2>&1; CHK=$?
-git -C /repo checkout -- .
-git -C /verif checkout -- evidence/$P.json 2>/dev/null  # the evidence of a run against a seeded change is not evidence about /repo
+# my check (against /repo as the brief prescribes; MUT_REPO=<scratch clone of /repo> is for triage while /repo is busy)
+REPO=${MUT_REPO:-/repo}
+if [ "$REPO" != /repo ]; then
+  git -C $REPO fetch -q /repo main && git -C $REPO reset -q --hard FETCH_HEAD
+  export SYMGO_REPO=$REPO SYMGO_OUT=/tmp/symgo-out
+fi
+git -C $REPO apply $WT/patch.diff || { echo "patch does not apply to $REPO"; exit 4; }
+cd /verif && timeout 3000 ./bin/symgo check -p $P -tier quick "$@" > /tmp/mut_check_$P.txt 2>&1; CHK=$?
+cp /tmp/mut_check_$P.txt /tmp/mut_check.txt
+git -C $REPO checkout -- .
+[ "$REPO" = /repo ] && git -C /verif checkout -- evidence/$P.json 2>/dev/null  # the evidence of a run against a seeded change is not evidence about /repo
 grep -E "^VIOLATION|^OK|^INCONCLUSIVE|^BROKEN|violated:" /tmp/mut_check.txt | cut -c1-300 | head -12
 echo "check exit: $CHK"
 mkdir -p $OUT
